@@ -8,7 +8,7 @@ from .harness import call, make_target
 
 META = {
     "rule": "generic_message over: service codes 0..127 as int and 1-byte bytes; class/instance/attribute boundary values as int "
-    "and as 1/2/4-byte bytes (attribute also absent); request data of every length 0..64 and 499/500/3999; transports "
+    "and as 1/2/4-byte bytes (attribute also absent); request data of every length 0..64 and 499/500/3900; transports "
     "connected, UCMM (route_path=False) and Unconnected Send; route_path True / str / segment list / encoded bytes with 0-3 "
     "hops and driver routes of 0-3 hops; reply data of every length 0..64 raw or decoded with UINT/STRING/Struct; reply "
     "status ok / error with and without extended status. Helpers get_plc_name, get_plc_info, get_module_info(slot 0..16), "
@@ -240,7 +240,7 @@ def shards(tier, seed):
 
 
 def describe(tier, seed):
-    return {"bounds": {"services": "0..127 x {int, bytes}", "id_values": IDV, "data_lengths": "0..64, 499, 500, 3999", "hops": "0..3"}, "exhaustive": True}
+    return {"bounds": {"services": "0..127 x {int, bytes}", "id_values": IDV, "data_lengths": "0..64, 499, 500, 3900", "hops": "0..3"}, "exhaustive": True}
 
 
 def run_shard(shard, tier, seed):
@@ -258,6 +258,15 @@ def run_shard(shard, tier, seed):
                     kw = dict(service=sv, class_code=0x99, instance=1, attribute=3, request_data=b"\x11\x22", **tkw(tr))
                     want = (tr, svc, path_of(0x99, 1, 3), b"\x11\x22", droute if tr == "ucsend" else None)
                     expect(rep, t, dev, d, kw, want, reply=(0, [], bytes([svc])), sig=f"delivery/service/{tr}", rp=("svc", svc, form, tr))
+        # keyword combinations: the "unconnected only" options have no say when the message is connected (explicitly or by default)
+        for svc in (0x01, 0x0E, 0x4C):
+            for conn in ((), (("connected", True),)):
+                for us in ((), (("unconnected_send", True),), (("unconnected_send", False),)):
+                    for rp in ((), (("route_path", True),), (("route_path", False),), (("route_path", "bp/3"),), (("route_path", b"\x01\x00\x01\x03"),)):
+                        opts = dict(conn + us + rp)
+                        kw = dict(service=svc, class_code=0x99, instance=1, attribute=3, request_data=b"\x11\x22", **opts)
+                        want = ("connected", svc, path_of(0x99, 1, 3), b"\x11\x22", None)
+                        expect(rep, t, dev, d, kw, want, reply=(0, [], bytes([svc])), sig="delivery/keywords/connected-with-unconnected-options", rp=("kw", svc, tuple(sorted((k_, repr(v_)) for k_, v_ in opts.items()))))
         rep.sample({"service": "0..127", "transports": TRANSPORTS})
     elif k == "ids":
         w, t, dev, d = new_driver()
@@ -278,7 +287,7 @@ def run_shard(shard, tier, seed):
         rep.sample({"class_instance_attribute": "boundary product", "transport": tr})
     elif k == "datalen":
         w, t, dev, d = new_driver()
-        for n in list(range(0, 65)) + [499, 500, 3999]:
+        for n in list(range(0, 65)) + [499, 500, 3900]:
             data = bytes((n * 3 + j * 5) & 0xFF for j in range(n))
             for tr in TRANSPORTS:
                 if tr != "connected" and n > 500:
@@ -289,7 +298,7 @@ def run_shard(shard, tier, seed):
                         kw["attribute"] = a
                     want = (tr, 0x4C, path_of(0x99, 0x1234, a), data, droute if tr == "ucsend" else None)
                     expect(rep, t, dev, d, kw, want, reply=(0, [], b"\x01"), sig=f"delivery/data/{tr}/{'odd' if n % 2 else 'even'}", rp=("len", n, tr, a))
-        rep.sample({"data_lengths": "0..64,499,500,3999"})
+        rep.sample({"data_lengths": "0..64,499,500,3900"})
     elif k == "replies":
         w, t, dev, d = new_driver()
         st3 = Struct(UINT("a"), USINT("b"), STRING("s"))
@@ -459,7 +468,7 @@ def run_shard(shard, tier, seed):
 def replay(r):
     case = r["case"]
     kind = case[0]
-    shard = {"svc": ("services",), "ids": None, "len": ("datalen",), "raw": ("replies",), "uint": ("replies",), "string": ("replies",), "struct": ("replies",),
+    shard = {"svc": ("services",), "kw": ("services",), "ids": None, "len": ("datalen",), "raw": ("replies",), "uint": ("replies",), "string": ("replies",), "struct": ("replies",),
              "short": ("replies",), "status": ("status",)}.get(kind)
     if kind == "ids":
         shard = ("ids", TRANSPORTS.index(case[-1]))
